@@ -497,3 +497,7 @@ def run(ctx, res):
     rule_bucket_add(ctx, res)
     rule_who_mutates(ctx, res)
     common.rule_find_node_identity(ctx, res)
+    # "update in place on repeat": what a repeat offer does to the resident entry (node.rs:80-111) - a bad resident offered
+    # again must become usable again, a better resident is never degraded
+    from . import c10
+    c10.rule_update_table(ctx, res)
